@@ -210,11 +210,17 @@ def execute_isolated(engine, scenario, tier, timeout):
 # ----------------------------------------------------------------------------
 # minimisation
 # ----------------------------------------------------------------------------
-def first_violation(result, prop):
+def first_violation(result, prop, vclass=None):
+    """First violation of `prop` in a run's result; with vclass, the one of that class (a run may report
+    several violations of the same property)."""
+    first = None
     for v in result.get("violations", ()):
         if v.get("property", prop) == prop:
-            return v
-    return None
+            if vclass is None or v["class"] == vclass:
+                return v
+            if first is None:
+                first = v
+    return first
 
 
 def minimise(engine, scenario, vclass, prop, tier, timeout, budget=150, wall=120.0):
@@ -233,7 +239,7 @@ def minimise(engine, scenario, vclass, prop, tier, timeout, budget=150, wall=120
             status, payload = execute_isolated(engine, cand, tier, timeout)
             if status != "ok":
                 continue
-            v = first_violation(payload, prop)
+            v = first_violation(payload, prop, vclass)
             if v is not None and v["class"] == vclass:
                 best = cand
                 improved = True
@@ -331,13 +337,13 @@ def worker_main(argv):
                 cand = dict(sc)
                 cand.update(v["narrow"])
                 st1, res1 = execute_isolated(engine, cand, tier, timeout)
-                v1 = first_violation(res1, prop) if st1 == "ok" else None
+                v1 = first_violation(res1, prop, v["class"]) if st1 == "ok" else None
                 if v1 is not None and v1["class"] == v["class"]:
                     base = cand
             small, tried = minimise(engine, base, v["class"], prop, tier, timeout)
             # final confirmation run of the minimised scenario
             st2, res2 = execute_isolated(engine, small, tier, timeout)
-            v2 = first_violation(res2, prop) if st2 == "ok" else None
+            v2 = first_violation(res2, prop, v["class"]) if st2 == "ok" else None
             if v2 is None or v2["class"] != v["class"]:
                 small, res2, v2 = sc, res, v
             summ["violations"].append({
@@ -397,7 +403,9 @@ def write_replay(prop, v, tier, hashseed):
     name = hashlib.sha256(json.dumps(body, sort_keys=True).encode()).hexdigest()[:16]
     path = os.path.join(d, name + ".json")
     with open(path, "w") as f:
-        json.dump(body, f, indent=1, sort_keys=True)
+        # key order is part of the scenario (the order of a state point's keys decides the bytes of its
+        # file): never sort
+        json.dump(body, f, indent=1)
     return path
 
 
@@ -579,7 +587,7 @@ def replay_main(path):
     if status != "ok":
         print(f"HARNESS-ERROR replay {status}: {str(res)[-2000:]}")
         return 2
-    v = first_violation(res, prop)
+    v = first_violation(res, prop, body["violation"]["class"])
     if v is None:
         print(f"replay of {path}: no violation (property {prop} held)")
         return 0
@@ -587,6 +595,8 @@ def replay_main(path):
     same_digest = res.get("digest") == body.get("event_digest")
     print(f"VIOLATION property={prop} replay={path}")
     print(f"  class={v['class']} same_class={same_class} same_event_digest={same_digest}")
+    if not same_digest:
+        print(f"  recorded digest {body.get('event_digest')} replayed digest {res.get('digest')}")
     print(f"  {v.get('message', '')[:1500]}")
     return 1
 
